@@ -11,6 +11,7 @@ import (
 	"go/token"
 	"go/types"
 	"strings"
+	"unicode"
 )
 
 func c07Flows(c *Ctx, r *Report) {
@@ -28,7 +29,7 @@ func c07Flows(c *Ctx, r *Report) {
 		{cl, "the action element's text becomes the rule's action code", "Parser", "oneRule", "ActionCode", "(*RuleVistor).Process", []string{".RightPart).Element"}, []string{"?$ok", ".ElemType == 2"}, true},
 	})
 	checkRequiredCalls(c, r, []requiredCall{
-		{cl, "a tagged identifier's tag is copied to its grammar symbol", "(*Walker).BuildLALR1", "SetTag", 0, ".Tag", []string{"?$ok", `?.Tag != ""`, "?.Value != -1"}, true},
+		{cl, "a tagged identifier's tag is copied to its grammar symbol", "(*Walker).BuildLALR1", "SetTag", 0, ".Tag", []string{"?$ok", `?.Tag != ""`, "?.Value != -1"}, true, true},
 	})
 	c07TagLocals(c, r)
 	idTableCreatedOnce(c, r, cl)
@@ -40,14 +41,14 @@ func c04Flows(c *Ctx, r *Report) {
 		{cl, "a symbol's precedence level is stored", "Symbol", "Symbol", "Prec", "(*Symbol).SetPrec", []string{"=$"}, nil, true},
 		{cl, "a symbol's associativity is stored", "Symbol", "Symbol", "PrecType", "(*Symbol).SetPrecType", []string{"=$"}, nil, true},
 		{cl, "a rule's precedence symbol is stored", "Rules", "ProductoinRule", "PrecSymbol", "(*ProductoinRule).SetPrecSymbol", []string{"=$"}, nil, true},
-		{cl, "%prec NAME is recorded on the alternative", "Parser", "RuleDef", "PrecSym", "(*parser).parseRule", []string{"=$.current.Value"}, []string{`.Kind == "PrecDirective"`, `Is("Identifier")`}, false},
-		{cl, "%prec 'c' is recorded on the alternative under the literal's temporary name", "Parser", "RuleDef", "PrecSym", "(*parser).parseRule", []string{"=Parser.genTempName($.current.Value)"}, []string{`.Kind == "PrecDirective"`, `Is("Charater")`}, false},
+		{cl, "%prec NAME is recorded on the alternative", "Parser", "RuleDef", "PrecSym", "(*parser).parseRule", []string{"=$.current.Value"}, []string{`.Kind == "PrecDirective"`, `.Kind == "Identifier"`}, false},
+		{cl, "%prec 'c' is recorded on the alternative under the literal's temporary name", "Parser", "RuleDef", "PrecSym", "(*parser).parseRule", []string{"=Parser.genTempName($.current.Value)"}, []string{`.Kind == "PrecDirective"`, `.Kind == "Charater"`}, false},
 		{cl, "an explicit %prec decides the rule's precedence symbol", "Parser", "oneRule", "PrecIdSym", "(*RuleVistor).Process", []string{".PrecSym]"}, []string{"?$ok", `.PrecSym != ""`}, true},
 		{cl, "without %prec each right-hand terminal with a precedence (the last one wins) decides it", "Parser", "oneRule", "PrecIdSym", "(*RuleVistor).Process", []string{".Element].Name]"}, []string{"?$ok", ".ElemType == 1", "preMap[…] != nil", "?idsymtabl[…] != nil"}, true},
 	})
 	checkRequiredCalls(c, r, []requiredCall{
-		{cl, "a rule's precedence symbol is handed to the grammar rule", "(*Walker).BuildLALR1", "SetPrecSymbol", -1, "", []string{"?$ok", ".PrecIdSym != nil"}, true},
-		{cl, "a terminal's precedence level is copied to its grammar symbol", "(*Walker).BuildLALR1", "SetPrec", 0, ".Prec", []string{"?$ok", "] != nil", "?.IDTyp != 2", "?.Value != -1"}, true},
+		{cl, "a rule's precedence symbol is handed to the grammar rule", "(*Walker).BuildLALR1", "SetPrecSymbol", -1, "", []string{"?$ok", ".PrecIdSym != nil"}, true, false},
+		{cl, "a terminal's precedence level is copied to its grammar symbol", "(*Walker).BuildLALR1", "SetPrec", 0, ".Prec", []string{"?$ok", "] != nil", "?.IDTyp != 2", "?.Value != -1"}, true, false},
 	})
 }
 
@@ -58,7 +59,7 @@ func c11Flows(c *Ctx, r *Report) {
 		{cl, "an explicit number on a later declaration of the same name is merged into the identifier table", "Parser", "Idendity", "Value", "(*astDeclareVistor).Process", []string{".IdentifyList).Value"}, []string{"?$ok", "] != nil", ".Value != 0"}, true},
 	})
 	checkRequiredCalls(c, r, []requiredCall{
-		{cl, "every identifier's code is copied to its grammar symbol", "(*Walker).BuildLALR1", "SetValue", 0, ".Value", []string{"?$ok", "?.Value != -1"}, true},
+		{cl, "every identifier's code is copied to its grammar symbol", "(*Walker).BuildLALR1", "SetValue", 0, ".Value", []string{"?$ok", "?.Value != -1"}, true, true},
 	})
 	idTableCreatedOnce(c, r, cl)
 }
@@ -69,7 +70,7 @@ func c12Flows(c *Ctx, r *Report) {
 		{cl, "marking a symbol as nonterminal is stored", "Symbol", "Symbol", "IsNonTerminator", "(*Symbol).SetNT", []string{"=true"}, nil, true},
 	})
 	checkRequiredCalls(c, r, []requiredCall{
-		{cl, "identifiers that are not tokens become nonterminal symbols", "(*Walker).BuildLALR1", "SetNT", -1, "", []string{"?$ok", ".IDTyp == 2", "?.Value != -1"}, true},
+		{cl, "identifiers that are not tokens become nonterminal symbols", "(*Walker).BuildLALR1", "SetNT", -1, "", []string{"?$ok", ".IDTyp == 2", "?.Value != -1"}, true, false},
 	})
 }
 
@@ -77,7 +78,7 @@ func c12Flows(c *Ctx, r *Report) {
 func c03Flows(c *Ctx, r *Report) {
 	const cl = "C03.e"
 	checkRequiredCalls(c, r, []requiredCall{
-		{cl, "nullable nonterminals are computed while the grammar is built", "(*Walker).BuildLALR1", "CalculateEpsilonClosure", -1, "", []string{"?$ok"}, true},
+		{cl, "nullable nonterminals are computed while the grammar is built", "(*Walker).BuildLALR1", "CalculateEpsilonClosure", -1, "", []string{"?$ok"}, true, false},
 	})
 	if f := c.need(r, cl, "Parser", "Walker", "BuildLALR1"); f != nil {
 		info := f.Pkg.TypesInfo
@@ -140,7 +141,7 @@ func c07TagLocals(c *Ctx, r *Report) {
 				continue
 			}
 			atoms := guardAtoms(c, f, target)
-			if m := guardMismatch(atoms, []string{`Is("LeftAngleBracket")`}, true); m == "" {
+			if m := guardMismatch(atoms, []string{`.Kind == "LeftAngleBracket"`}, true); m == "" {
 				why = ""
 			} else {
 				why = "the tag is taken from the token text, but " + m
@@ -327,6 +328,46 @@ func c10SectionExtents(c *Ctx, r *Report) {
 		if err != nil {
 			why = err.Error()
 		}
+		// the scan may also be ended by a flag: `closed := false; for !closed { … case '}': level--; closed = level == 0 … }`
+		var flag types.Object
+		if loop.Cond != nil {
+			if un, ok := unparen(loop.Cond).(*ast.UnaryExpr); ok && un.Op == token.NOT {
+				flag = identObj(info, un.X)
+			}
+			flagInit := false
+			for _, st := range f.Decl.Body.List {
+				if st.Pos() >= loop.Pos() {
+					break
+				}
+				if as, ok := st.(*ast.AssignStmt); ok && len(as.Lhs) == 1 && len(as.Rhs) == 1 && flag != nil && identObj(info, as.Lhs[0]) == flag {
+					if cv := constOf(info, as.Rhs[0]); cv != nil && cv.Kind() == constant.Bool {
+						flagInit = !constant.BoolVal(cv)
+					}
+				}
+			}
+			if flag == nil || !flagInit {
+				why = "the scanning loop has a condition that is not `!<flag>` with the flag false before the loop"
+			}
+		}
+		stops := func(p *PathOut) (bool, bool) { // (leaves the scan, decided)
+			if flag == nil {
+				return p.Kind == "break", true
+			}
+			if p.Kind != "fall" && p.Kind != "continue" {
+				return false, false
+			}
+			t := p.Env[flag]
+			if t == nil {
+				return false, true
+			}
+			switch t.String() {
+			case "((LEVEL - 1) == 0)", "(0 == (LEVEL - 1))":
+				return true, true // read as: leaves iff the new level is 0 — compared with `zero` below
+			case "false":
+				return false, true
+			}
+			return false, false
+		}
 		val := func(ch int64) func(t *Term) (constant.Value, bool) {
 			return func(t *Term) (constant.Value, bool) {
 				if t.Op == "call" && strings.HasSuffix(t.Name, "lexer).next") {
@@ -354,14 +395,22 @@ func c10SectionExtents(c *Ctx, r *Report) {
 		}{{"{", '{'}, {"}", '}'}, {"other", 'x'}} {
 			for _, p := range selectPaths(paths, val(cs.ch)) {
 				d := delta(p)
+				leaves, decided := stops(p)
 				switch cs.name {
 				case "{":
-					if d != "+1" || p.Kind != "fall" {
+					if d != "+1" || p.Kind != "fall" || leaves || !decided {
 						why = "an opening brace does not raise the nesting level by one and continue"
 					}
 				case "}":
 					if d != "-1" {
 						why = "a closing brace does not lower the nesting level by one"
+					}
+					if flag != nil {
+						// the flag becomes `new level == 0` on this path, unconditionally
+						if t := p.Env[flag]; t == nil || (t.String() != "((LEVEL - 1) == 0)" && t.String() != "(0 == (LEVEL - 1))") || !decided {
+							why = "the scan does not stop exactly at the brace that brings the level back to 0 (the end flag is not set to `level == 0` after the decrement)"
+						}
+						break
 					}
 					zero := false
 					for _, cd := range p.Conds {
@@ -369,11 +418,11 @@ func c10SectionExtents(c *Ctx, r *Report) {
 							zero = true
 						}
 					}
-					if zero != (p.Kind == "break") {
+					if zero != leaves {
 						why = "the scan does not stop exactly at the brace that brings the level back to 0"
 					}
 				default:
-					if d != "0" || p.Kind != "fall" {
+					if d != "0" || p.Kind != "fall" || leaves || !decided {
 						why = "another character changes the nesting level or ends the scan"
 					}
 				}
@@ -390,6 +439,9 @@ func c10SectionExtents(c *Ctx, r *Report) {
 				if len(x.Lhs) == 1 && identObj(info, x.Lhs[0]) == level {
 					if v, isC := constInt(info, x.Rhs[0]); isC && v == 0 {
 						init0 = true
+					}
+					if v, isC := constInt(info, x.Rhs[0]); isC && v == 1 {
+						init0, inc = true, inc+1 // `level := 1`: the opening brace already counted
 					}
 				}
 			case *ast.IncDecStmt:
@@ -798,37 +850,42 @@ func c10TokenStartDiscipline(c *Ctx, r *Report, clause string) {
 			name+" sets start = end unconditionally: the next token's text begins after this one",
 			name+" does not move start up to end: the next token's text would still contain the text just emitted / skipped")
 	}
-	if f := c.need(r, clause, "Parser", "lexer", "word"); f != nil {
-		info := f.Pkg.TypesInfo
-		ok := false
-		if len(f.Decl.Body.List) == 1 {
-			if rt, isR := f.Decl.Body.List[0].(*ast.ReturnStmt); isR && len(rt.Results) == 1 {
-				if se, isS := unparen(rt.Results[0]).(*ast.SliceExpr); isS && isField(info, se.X, "input") && se.Low != nil && se.High != nil && isField(info, se.Low, "start") && isField(info, se.High, "end") {
-					ok = true
-				}
-			}
-		}
-		r.Check(ok, clause, "R13 AFFINE", f.Name+"/is-input-start-to-end", c.pos(f.Decl.Pos()), "word() is input[start:end]", "word() is not input[start:end]")
-	}
 	if f := c.need(r, clause, "Parser", "lexer", "emit"); f != nil {
 		info := f.Pkg.TypesInfo
+		isWordSlice := func(finfo *types.Info, e ast.Expr) bool {
+			se, isS := unparen(e).(*ast.SliceExpr)
+			return isS && isField(finfo, se.X, "input") && se.Low != nil && se.High != nil && se.Max == nil && isField(finfo, se.Low, "start") && isField(finfo, se.High, "end")
+		}
 		ok := false
 		ast.Inspect(f.Decl.Body, func(n ast.Node) bool {
-			if call, isC := n.(*ast.CallExpr); isC && len(call.Args) == 2 {
-				if fn := callee(info, call); fn != nil && fn.Name() == "emitValue" {
-					if wc, isW := unparen(call.Args[1]).(*ast.CallExpr); isW {
-						if wf := callee(info, wc); wf != nil && wf.Name() == "word" {
-							ps := paramObjs(info, f.Decl)
-							if len(ps) == 1 && identObj(info, call.Args[0]) == ps[0] {
-								ok = true
-							}
+			call, isC := n.(*ast.CallExpr)
+			if !isC || len(call.Args) != 2 {
+				return true
+			}
+			fn := callee(info, call)
+			if fn == nil || fn.Name() != "emitValue" {
+				return true
+			}
+			ps := paramObjs(info, f.Decl)
+			if len(ps) != 1 || identObj(info, call.Args[0]) != ps[0] {
+				return true
+			}
+			// the text: input[start:end] written in place, or through a helper of the lexer whose body is
+			// `return l.input[l.start:l.end]`
+			if isWordSlice(info, call.Args[1]) {
+				ok = true
+			} else if wc, isW := unparen(call.Args[1]).(*ast.CallExpr); isW && len(wc.Args) == 0 {
+				if wf := callee(info, wc); wf != nil {
+					if ref := c.FuncOf(wf); ref != nil && ref.Decl.Body != nil && len(ref.Decl.Body.List) == 1 {
+						if rt, isR := ref.Decl.Body.List[0].(*ast.ReturnStmt); isR && len(rt.Results) == 1 && isWordSlice(ref.Pkg.TypesInfo, rt.Results[0]) {
+							ok = true
 						}
 					}
 				}
 			}
 			return true
 		})
-		r.Check(ok, clause, "R1 PROVENANCE", f.Name+"/emits-the-current-word", c.pos(f.Decl.Pos()), "emit(kind) = emitValue(kind, word())", "emit does not emit the current word under the given kind")
+		r.Check(ok, clause, "R1 PROVENANCE", f.Name+"/emits-the-current-word", c.pos(f.Decl.Pos()), "emit(kind) = emitValue(kind, input[start:end])", "emit does not emit input[start:end] under the given kind")
 	}
 }
 
@@ -1243,8 +1300,27 @@ func c10ActionExtent(c *Ctx, r *Report) {
 			}
 		}
 	}
-	if loop == nil || depth == nil || !init1 || loop.Cond != nil || loop.Init != nil || loop.Post != nil {
-		r.Undecided(cl, "R4 DECISION-TABLE", key, c.pos(f.Decl.Pos()), "expected `depth := 1; for { … }`")
+	// the depth may also be the loop's own variable: `for depth := 1; depth > 0; { … }`
+	if loop != nil && depth == nil {
+		if as, ok := loop.Init.(*ast.AssignStmt); ok && len(as.Lhs) == 1 && len(as.Rhs) == 1 {
+			if v, isC := constInt(info, as.Rhs[0]); isC && v == 1 {
+				depth = identObj(info, as.Lhs[0])
+				init1 = true
+			}
+		}
+	} else if loop != nil && loop.Init != nil {
+		init1 = false
+	}
+	// how the scan ends: `if depth == 0 { break }` inside an endless loop, or the loop condition `depth > 0` / `depth != 0`
+	condForm := "none"
+	if loop != nil && loop.Cond != nil {
+		condForm = "other"
+		if be, ok := unparen(loop.Cond).(*ast.BinaryExpr); ok && depth != nil && identObj(info, be.X) == depth && isConstZero(info, be.Y) && (be.Op == token.GTR || be.Op == token.NEQ) {
+			condForm = "positive"
+		}
+	}
+	if loop == nil || depth == nil || !init1 || condForm == "other" || loop.Post != nil {
+		r.Undecided(cl, "R4 DECISION-TABLE", key, c.pos(f.Decl.Pos()), "expected `depth := 1; for { … if depth == 0 { break } … }` or `for depth := 1; depth > 0; { … }`")
 		return
 	}
 	// cursor movement inside the loop: exactly one next(), nothing else that moves the cursor
@@ -1326,6 +1402,13 @@ func c10ActionExtent(c *Ctx, r *Report) {
 						tested = true
 						zero = cd.Pol
 					}
+				}
+				if condForm == "positive" {
+					// the loop condition ends the scan when the depth is 0: the body must not leave on its own
+					if p.Kind != "fall" && p.Kind != "continue" {
+						why = "on " + cs.name + " the body leaves the scan itself (path ends in " + p.Kind + ") although the loop condition decides the end"
+					}
+					continue
 				}
 				if !tested {
 					why = "an iteration on " + cs.name + " does not test the depth against 0"
@@ -1410,6 +1493,12 @@ func directiveArms(f *FuncRef) []directiveArm {
 		return ok
 	}
 	list := f.Decl.Body.List
+	for _, st := range list {
+		// table form: `for _, d := range <package-level table> { if !accept…(d.word) { continue }; …; emit(d.kind); break }`
+		if rs, ok := st.(*ast.RangeStmt); ok {
+			arms = append(arms, directiveTableArms(f, rs)...)
+		}
+	}
 	for i, st := range list {
 		switch x := st.(type) {
 		case *ast.IfStmt:
@@ -1465,4 +1554,378 @@ func directiveArms(f *FuncRef) []directiveArm {
 		}
 	}
 	return arms
+}
+
+// directiveTableArms: the keyword tests written as a loop over a package-level table of (word, kind) entries that
+// nothing assigns. The arm of an entry is exclusive when the statements after a successful accept end in break/return.
+func directiveTableArms(f *FuncRef, rs *ast.RangeStmt) []directiveArm {
+	info := f.Pkg.TypesInfo
+	tv, _ := identObj(info, rs.X).(*types.Var)
+	elem := identObj(info, rs.Value)
+	if tv == nil || elem == nil || tv.Pkg() == nil || tv.Parent() != tv.Pkg().Scope() {
+		return nil
+	}
+	init, assigned := pkgVarInitOf(f, tv)
+	lit, ok := init.(*ast.CompositeLit)
+	if !ok || assigned {
+		return nil
+	}
+	st, ok := elemStruct(tv.Type())
+	if !ok {
+		return nil
+	}
+	// which field feeds accept…(), which feeds emit()
+	wordField, kindField := "", ""
+	acceptNeg, exclusive := false, false
+	var acceptIf *ast.IfStmt
+	for _, bs := range rs.Body.List {
+		if is, ok := bs.(*ast.IfStmt); ok && is.Init == nil && acceptIf == nil {
+			cond := unparen(is.Cond)
+			neg := false
+			if u, ok := cond.(*ast.UnaryExpr); ok && u.Op == token.NOT {
+				neg, cond = true, unparen(u.X)
+			}
+			if call, ok := cond.(*ast.CallExpr); ok && len(call.Args) == 1 {
+				if fn := callee(info, call); fn != nil && strings.HasPrefix(fn.Name(), "accept") {
+					if se, ok := unparen(call.Args[0]).(*ast.SelectorExpr); ok && identObj(info, se.X) == elem {
+						wordField, acceptNeg, acceptIf = se.Sel.Name, neg, is
+					}
+				}
+			}
+		}
+	}
+	if acceptIf == nil {
+		return nil
+	}
+	// the statements run after a successful accept
+	var after []ast.Stmt
+	if acceptNeg {
+		if len(acceptIf.Body.List) != 1 {
+			return nil
+		}
+		if br, ok := acceptIf.Body.List[0].(*ast.BranchStmt); !ok || br.Tok != token.CONTINUE {
+			return nil
+		}
+		for i, bs := range rs.Body.List {
+			if bs == ast.Stmt(acceptIf) {
+				after = rs.Body.List[i+1:]
+			}
+		}
+	} else {
+		after = acceptIf.Body.List
+	}
+	ast.Inspect(&ast.BlockStmt{List: after}, func(n ast.Node) bool {
+		if call, ok := n.(*ast.CallExpr); ok && len(call.Args) == 1 {
+			if fn := callee(info, call); fn != nil && fn.Name() == "emit" {
+				if se, ok := unparen(call.Args[0]).(*ast.SelectorExpr); ok && identObj(info, se.X) == elem {
+					kindField = se.Sel.Name
+				}
+			}
+		}
+		return true
+	})
+	if n := len(after); n > 0 {
+		switch x := after[n-1].(type) {
+		case *ast.BranchStmt:
+			exclusive = x.Tok == token.BREAK && x.Label == nil
+		case *ast.ReturnStmt:
+			exclusive = true
+		}
+	}
+	if wordField == "" || kindField == "" {
+		return nil
+	}
+	fieldIndex := func(name string) int {
+		for i := 0; i < st.NumFields(); i++ {
+			if st.Field(i).Name() == name {
+				return i
+			}
+		}
+		return -1
+	}
+	wi, ki := fieldIndex(wordField), fieldIndex(kindField)
+	var arms []directiveArm
+	for _, el := range lit.Elts {
+		cl, ok := el.(*ast.CompositeLit)
+		if !ok {
+			return nil
+		}
+		get := func(idx int, name string) ast.Expr {
+			for i, e := range cl.Elts {
+				if kv, ok := e.(*ast.KeyValueExpr); ok {
+					if id, ok := kv.Key.(*ast.Ident); ok && id.Name == name {
+						return kv.Value
+					}
+					continue
+				}
+				if i == idx {
+					return e
+				}
+			}
+			return nil
+		}
+		we, ke := get(wi, wordField), get(ki, kindField)
+		if we == nil || ke == nil {
+			return nil
+		}
+		w, ok1 := constString(info, we)
+		k, ok2 := constString(info, ke)
+		if !ok1 || !ok2 {
+			return nil
+		}
+		arms = append(arms, directiveArm{word: w, kind: k, exclusive: exclusive, pos: el.Pos()})
+	}
+	return arms
+}
+
+func elemStruct(t types.Type) (*types.Struct, bool) {
+	switch u := t.Underlying().(type) {
+	case *types.Slice:
+		st, ok := u.Elem().Underlying().(*types.Struct)
+		return st, ok
+	case *types.Array:
+		st, ok := u.Elem().Underlying().(*types.Struct)
+		return st, ok
+	}
+	return nil, false
+}
+
+// pkgVarInitOf: initialiser of a package-level variable of f's package and whether any function assigns it or takes its address.
+func pkgVarInitOf(f *FuncRef, v *types.Var) (ast.Expr, bool) {
+	var init ast.Expr
+	assigned := v.Exported() // an exported variable can be assigned from other packages: not treated as a constant table
+	info := f.Pkg.TypesInfo
+	for _, file := range f.Pkg.Syntax {
+		for _, d := range file.Decls {
+			switch x := d.(type) {
+			case *ast.GenDecl:
+				for _, sp := range x.Specs {
+					if vs, ok := sp.(*ast.ValueSpec); ok {
+						for i, n := range vs.Names {
+							if info.Defs[n] == types.Object(v) && i < len(vs.Values) {
+								init = vs.Values[i]
+							}
+						}
+					}
+				}
+			case *ast.FuncDecl:
+				if x.Body == nil {
+					continue
+				}
+				ast.Inspect(x.Body, func(n ast.Node) bool {
+					switch y := n.(type) {
+					case *ast.AssignStmt:
+						for _, l := range y.Lhs {
+							root := unparen(l)
+							for {
+								if ix, ok := root.(*ast.IndexExpr); ok {
+									root = unparen(ix.X)
+									continue
+								}
+								if se, ok := root.(*ast.SelectorExpr); ok {
+									if _, isField := info.Selections[se]; isField {
+										root = unparen(se.X)
+										continue
+									}
+								}
+								break
+							}
+							if identObj(info, root) == types.Object(v) {
+								assigned = true
+							}
+						}
+					case *ast.UnaryExpr:
+						if y.Op == token.AND {
+							root := unparen(y.X)
+							if ix, ok := root.(*ast.IndexExpr); ok {
+								root = unparen(ix.X)
+							}
+							if identObj(info, root) == types.Object(v) {
+								assigned = true
+							}
+						}
+					}
+					return true
+				})
+			}
+		}
+	}
+	return init, assigned
+}
+
+// runeValuation: next()/peek() yield ch; unicode predicates, strings.ContainsRune(const, r) and HasPrefix on the
+// remaining input (taken as "not a comment start") are folded for that rune.
+func runeValuation(ch int64) Valuation {
+	var val Valuation
+	val = func(t *Term) (constant.Value, bool) {
+		if t.Op == "leaf" && t.Name == "RUNE" {
+			return constant.MakeInt64(ch), true // a local renamed by the caller: the rune under test
+		}
+		if t.Op != "call" {
+			return nil, false
+		}
+		arg := func(i int) (rune, bool) {
+			if i >= len(t.Args) {
+				return 0, false
+			}
+			v, ok := evalTerm(t.Args[i], val)
+			if !ok || v.Kind() != constant.Int {
+				return 0, false
+			}
+			n, _ := constant.Int64Val(v)
+			return rune(n), true
+		}
+		switch {
+		case strings.HasSuffix(t.Name, "lexer).next"), strings.HasSuffix(t.Name, "lexer).peek"):
+			return constant.MakeInt64(ch), true
+		case t.Name == "strings.HasPrefix":
+			return constant.MakeBool(false), true
+		case t.Name == "unicode.IsLetter":
+			if r, ok := arg(0); ok {
+				return constant.MakeBool(r >= 0 && unicode.IsLetter(r)), true
+			}
+		case t.Name == "unicode.IsDigit":
+			if r, ok := arg(0); ok {
+				return constant.MakeBool(r >= 0 && unicode.IsDigit(r)), true
+			}
+		case t.Name == "unicode.IsSpace":
+			if r, ok := arg(0); ok {
+				return constant.MakeBool(r >= 0 && unicode.IsSpace(r)), true
+			}
+		case t.Name == "strings.ContainsRune":
+			if len(t.Args) == 2 && t.Args[0].Op == "const" && t.Args[0].Val != nil && t.Args[0].Val.Kind() == constant.String {
+				if r, ok := arg(1); ok {
+					return constant.MakeBool(r >= 0 && strings.ContainsRune(constant.StringVal(t.Args[0].Val), r)), true
+				}
+			}
+		}
+		return nil, false
+	}
+	return val
+}
+
+// c10RootDispatch — which token class a character starts, and which characters continue an identifier (C10.d):
+// rootState's dispatch, read as a decision table over representative runes, and the continuation condition of
+// IdentifyState. A digit that does not start a number, a letter that does not start an identifier, or an identifier
+// that stops at some digit splits one word of the grammar file into two tokens.
+func c10RootDispatch(c *Ctx, r *Report, clause string) {
+	kinds := kindConsts(c)
+	if f := c.need(r, clause, "Parser", "", "rootState"); f != nil {
+		info := f.Pkg.TypesInfo
+		key := f.Name + "/character-class-to-token-class"
+		pe := newPathEnum(info)
+		paths, err := pe.Enumerate(f.Decl.Body.List)
+		if err != nil {
+			r.Undecided(clause, "R4 DECISION-TABLE", key, c.pos(f.Decl.Pos()), err.Error())
+		} else {
+			type want struct {
+				runes string
+				state string // returned state function ("" = rootState / nil as given by term)
+				emit  string // kind emitted on the way ("" = none)
+			}
+			table := []want{
+				{"abzAZqé", "IdentifyState", ""}, {"_", "IdentifyState", ""},
+				{"0123456789", "rootState", "Number"},
+				{"|", "rootState", "RuleOR"}, {":", "rootState", "RuleDefine"}, {";", "rootState", "RuleEnd"},
+				{"<", "rootState", "LeftAngleBracket"}, {">", "rootState", "RightAngleBracket"},
+				{" \t\n", "rootState", ""},
+				{"%", "DirectiveState", ""}, {"$", "ActionState", ""}, {"'", "charaterState", ""}, {"\"", "stringKindState", ""}, {"{", "ActionQuoteState", ""},
+			}
+			var bad []string
+			n := 0
+			for _, w := range table {
+				for _, ch := range w.runes {
+					sel := selectPaths(paths, runeValuation(int64(ch)))
+					if len(sel) == 0 {
+						bad = append(bad, fmt.Sprintf("%q: no path", ch))
+						continue
+					}
+					for _, p := range sel {
+						n++
+						state := ""
+						if p.Kind == "return" && len(p.Vals) == 1 {
+							state = p.Vals[0].String()
+							if i := strings.LastIndex(state, "."); i >= 0 {
+								state = state[i+1:]
+							}
+						}
+						emitted := ""
+						for _, e := range p.Effects {
+							if e.Kind == "call" && strings.HasSuffix(e.Term.Name, "lexer).emit") && len(e.Term.Args) >= 1 {
+								if a := e.Term.Args[len(e.Term.Args)-1]; a.Val != nil && a.Val.Kind() == constant.String {
+									emitted = constant.StringVal(a.Val)
+								}
+							}
+							if e.Kind == "call" && strings.HasSuffix(e.Term.Name, "lexer).error") {
+								emitted = "<error>"
+							}
+						}
+						wantEmit := ""
+						if w.emit != "" {
+							wantEmit = kinds[w.emit]
+						}
+						if state != w.state || emitted != wantEmit {
+							bad = append(bad, fmt.Sprintf("%q → state %s, emits %q (expected state %s, emits %q)", ch, state, emitted, w.state, wantEmit))
+						}
+					}
+				}
+			}
+			sortStrings(bad)
+			r.Check(len(bad) == 0 && n >= 30, clause, "R4 DECISION-TABLE", key, c.pos(f.Decl.Pos()),
+				fmt.Sprintf("%d representative runes: letters and `_` start an identifier, every digit 0–9 starts a number, punctuation emits its own token, the characters %%, $, quote and { hand over to their states, blanks are skipped", n),
+				"the character classes of rootState deviate: "+strings.Join(bad, "; "))
+		}
+	}
+	if f := c.need(r, clause, "Parser", "", "IdentifyState"); f != nil {
+		info := f.Pkg.TypesInfo
+		key := f.Name + "/identifier-continues-over-letters-digits-underscore"
+		var loop *ast.ForStmt
+		for _, st := range f.Decl.Body.List {
+			if fs, ok := st.(*ast.ForStmt); ok && loop == nil {
+				loop = fs
+			}
+		}
+		if loop == nil || loop.Cond == nil {
+			r.Undecided(clause, "R4 DECISION-TABLE", key, c.pos(f.Decl.Pos()), "no `for <rune may continue an identifier>; r = l.next()` loop")
+			return
+		}
+		// the tested rune: a local assigned from l.next() (before the loop and in the post statement)
+		pe := newPathEnum(info)
+		ast.Inspect(loop.Cond, func(n ast.Node) bool {
+			if id, ok := n.(*ast.Ident); ok {
+				if v, isV := objOf(info, id).(*types.Var); isV && !v.IsField() && v.Pkg() != nil && v.Parent() != v.Pkg().Scope() {
+					pe.rename[v] = "RUNE"
+				}
+			}
+			return true
+		})
+		paths, err := pe.Enumerate([]ast.Stmt{&ast.IfStmt{If: loop.Cond.Pos(), Cond: loop.Cond, Body: &ast.BlockStmt{Lbrace: loop.Cond.Pos(), List: []ast.Stmt{&ast.ReturnStmt{Return: loop.Cond.Pos()}}, Rbrace: loop.Cond.End()}}})
+		if err != nil {
+			r.Undecided(clause, "R4 DECISION-TABLE", key, c.pos(loop.Pos()), err.Error())
+			return
+		}
+		eval := func(ch rune) (bool, bool) {
+			sel := selectPaths(paths, runeValuation(int64(ch)))
+			if len(sel) != 1 {
+				return false, false
+			}
+			return sel[0].Kind == "return", true
+		}
+		var bad []string
+		for _, ch := range "azAZmé0123456789_" {
+			if in, ok := eval(ch); !ok || !in {
+				bad = append(bad, fmt.Sprintf("%q does not continue an identifier", ch))
+			}
+		}
+		for _, ch := range " \t\n:;|<>{}%'\"$/()," {
+			if in, ok := eval(ch); !ok || in {
+				bad = append(bad, fmt.Sprintf("%q continues an identifier", ch))
+			}
+		}
+		if in, ok := eval(-1); !ok || in {
+			bad = append(bad, "end of input continues an identifier")
+		}
+		r.Check(len(bad) == 0, clause, "R4 DECISION-TABLE", key, c.pos(loop.Pos()),
+			"an identifier continues over every letter, every digit 0–9 and `_`, and ends at blanks, punctuation and the end of input", strings.Join(bad, "; "))
+	}
 }
